@@ -9,13 +9,13 @@
 EXTENDS MatcherUpdOps, FiniteSets
 
 CONSTANTS UBug,     \* "none" or a named deviation of MatcherUpdOps!InForce
-          URich     \* 1: two non-empty values per regex option, 2: three
+          URich     \* 1: one non-empty value per plain option, two per regex option; 2: one more for prefix, sub, regex, notRegex
 
 \* ------------------------------------------------------------ value pools
 ua == Lit("a")  ub == Lit("b")  ud == Lit(".")
-UPrefix    == {<<>>, <<"a">>}
+UPrefix    == {<<>>, <<"a">>} \cup (IF URich >= 2 THEN {<<"a", ".">>} ELSE {})
 UNotPrefix == {<<>>, <<"b", ".">>}
-USub       == {<<>>, <<"b">>}
+USub       == {<<>>, <<"b">>} \cup (IF URich >= 2 THEN {<<".", "a">>} ELSE {})
 UNotSub    == {<<>>, <<".", ".">>}
 \* ^ab?  (static prefix a)   b$  (none)   ^\.a|^b  (top-level alternation)
 URegex     == {NoRe, Cat(Bol, Cat(ua, Opt(ub))), Cat(ub, Eol)}
